@@ -36,7 +36,7 @@ def check_c13(budget, seed):
     t0 = time.time()
     n = 0
     regions = {}
-    while time.time() - t0 < budget:
+    while _more(n, t0, budget):
         n += 1
         ns = rng.randint(2, 4)
         ids = [f"s{k}" for k in range(ns)]
@@ -119,6 +119,15 @@ def check_c13(budget, seed):
     return {"cases": n, "violation": None}
 
 
+MAX_CASES = None  # a replay re-generates exactly as many cases as the original run needed
+
+
+def _more(n, t0, budget):
+    if MAX_CASES is not None:
+        return n < MAX_CASES and time.time() - t0 < 3600
+    return time.time() - t0 < budget
+
+
 # =========================================================================== C15
 def check_c15(budget, seed):
     """Every documented rendering of one abstract machine gives the same states, events, allowed
@@ -140,7 +149,7 @@ def check_c15(budget, seed):
             per_state[s.id] = [(str(e), t.target.id) for t in s.transitions for e in t.events]
         return sm_states, evs, {k: sorted(v) for k, v in per_state.items()}
 
-    while time.time() - t0 < budget:
+    while _more(n, t0, budget):
         n += 1
         ns = rng.randint(2, 4)
         ids = [f"s{k}" for k in range(ns)]
@@ -216,7 +225,7 @@ def check_c12(budget, seed):
     rng = random.Random(seed)
     t0 = time.time()
     n = 0
-    while time.time() - t0 < budget:
+    while _more(n, t0, budget):
         n += 1
         log = []
 
@@ -232,7 +241,10 @@ def check_c12(budget, seed):
                     log.append((_tag, "ok", None))
                     return _v
                 g.__qualname__ = f"{tag}_{next(_uid)}.ok"
-                ns_["ok"] = g
+                # a guard name may be provided as a method, as a property or as a plain attribute (attr_method / _search_property)
+                kind = rng.choice(["method", "method", "property", "attribute"])
+                ns_["ok"] = g if kind == "method" else property(g) if kind == "property" else guard_value
+                ns_["_ok_value"] = guard_value
             return type(fresh_name("P"), (), ns_)()
 
         pool = ["before_go", "on_go", "after_go", "on_enter_b", "on_exit_a", "after_transition", "before_transition"]
@@ -257,9 +269,8 @@ def check_c12(budget, seed):
                 return _v
             g.__qualname__ = f"M_{next(_uid)}.ok"
             ns_["ok"] = g
-        guards = [("machine", m_guard), ("model", getattr(type(model), "ok", None) and model.ok.__func__.__defaults__[1]),
-                  ("L1", getattr(type(l1), "ok", None) and l1.ok.__func__.__defaults__[1]),
-                  ("L2", getattr(type(l2), "ok", None) and l2.ok.__func__.__defaults__[1])]
+        guards = [("machine", m_guard), ("model", getattr(type(model), "_ok_value", None)),
+                  ("L1", getattr(type(l1), "_ok_value", None)), ("L2", getattr(type(l2), "_ok_value", None))]
         late = rng.random() < 0.5
         if not [v for (_, v) in (guards[:3] if late else guards) if v is not None]:
             continue  # `cond="ok"` needs at least one provider at construction
@@ -306,7 +317,7 @@ def check_c16(budget, seed):
     rng = random.Random(seed)
     t0 = time.time()
     n = 0
-    while time.time() - t0 < budget:
+    while _more(n, t0, budget):
         n += 1
         log = []
         ns_ = {"a": State(initial=True), "b": State(), "c": State()}
@@ -347,8 +358,20 @@ if __name__ == "__main__":
     res = CHECKS[pid](budget, seed)
     if res.get("violation"):
         os.makedirs("/verif/replays", exist_ok=True)
-        path = f"/verif/replays/{pid}-api-{seed}-{res['cases']}.json"
-        json.dump(res["violation"], open(path, "w"), indent=1, default=str)
+        path = f"/verif/replays/{pid}-api-{seed}-{res['cases']}.py"
+        with open(path, "w") as f:
+            f.write(f'''"""Replay ({pid} API layer): the same seeded sequence of cases is generated again; it stops at the first case on which the real
+library disagrees with the reference (case {res['cases']} when this file was written).  The difference found then:
+{json.dumps(res["violation"], indent=1, default=str)[:3000]}
+"""
+import sys
+sys.path.insert(0, "/verif")
+from runtime import api_checks
+api_checks.MAX_CASES = {res['cases']}
+r = api_checks.CHECKS[{pid!r}](900, {seed})
+print(r)
+sys.exit(1 if r.get("violation") else 0)
+''')
         res["replay"] = path
     print(json.dumps(res, default=str))
     sys.exit(1 if res.get("violation") else 0)
